@@ -17,6 +17,11 @@ DISCHARGED_BY = {
 }
 
 
+def assumed(*names):
+  """evidence entries for the callee contracts a property's harnesses actually use"""
+  return [{"callee": k, "stated_in": "contracts/callee.py", "discharged_in_this_run_by": DISCHARGED_BY[k]} for k in names]
+
+
 def clock_total_ms(c):
   return ((c.get_hours() * 60 + c.get_minutes()) * 60 + c.get_seconds()) * 1000 + c.get_milliseconds()
 
